@@ -6,7 +6,7 @@
 
 use crate::common::*;
 use crate::model::KsModel;
-use crate::{ensure, ensure_eq_bytes};
+use crate::{ensure, ensure_eq_bytes, pick};
 use vp_base::obj::*;
 use vp_base::tape::{self, Tape};
 
@@ -26,7 +26,7 @@ fn limit_blocks(kind: StreamKind) -> u128 {
 
 pub fn check(ctx: &Ctx, t: &mut Tape<'_>, r: &mut Report) -> CheckResult {
     let kind = t.pick(&STREAM_KINDS_ALL[..7]);
-    let suite = ctx.pick_suite(t, |s| s.stream(kind).is_some());
+    let suite = pick!(ctx, t, r, |s| s.has_stream(kind));
     let f = suite.stream(kind).unwrap();
     let bs = suite.info.bs;
     let key = gen_key(t, suite);
